@@ -6,6 +6,7 @@ only, never the real graphs.
 ORIGINS = (0, 0, -7, 10 ** 9)
 INT_NODES = [0, 1, 2, 3, 4, 5]
 STR_NODES = ['a', 'b', 'c', 'd', 'e', 'f']
+TUPLE_NODES = [(0, 1), (1, 0), (2, 2), (0,), (1, 2, 3), (5, 0)]
 STR_NODES_X = ['a', '\u00f1', 'c', '\u00e9', 'e', '\u00fc']     # non-ASCII ids (I/O focuses): encodings must matter
 SPAN_CLASSES = ['gap', 'adjacent', 'overlap', 'overlap-samestart', 'contained', 'dup', 'ooo']
 
@@ -26,6 +27,8 @@ def swarm(rng, focus, tier='quick'):
     pool = list(INT_NODES) if rng.random() < 0.7 else list(STR_NODES)
     if focus in ('C09', 'C10', 'C18', 'C11') and rng.random() < 0.25:
         pool = list(STR_NODES_X)
+    if focus in ('C01', 'C04', 'C05', 'C07', 'C08') and rng.random() < 0.12:
+        pool = list(TUPLE_NODES)                    # any hashable id: tuples (they become lists in JSON replay files)
     cfg = {
         'origin': rng.choice(ORIGINS),
         'nodes': pool[:rng.randint(2, 6)],
